@@ -3,7 +3,7 @@
    parameter), Contains <-> added, refused additions change nothing, no fuel / assertion outcome. *)
 From Coq Require Import ZArith Bool List Lia.
 From MomoCommon Require Import GenPrelude.
-From C18 Require Import Gen_Vertices Gen_Ceil Model Layout Fill Vertices.
+From C18 Require Import Gen_Vertices Gen_Ceil Model Layout Fill Vertices Bits.
 Import ListNotations.
 Local Open Scope Z_scope.
 
@@ -32,7 +32,7 @@ Qed.
 Lemma length_zrange n : forall s, length (zrange n s) = n.
 Proof. induction n; intros; simpl; auto. Qed.
 
-Lemma record_eta r : mkrec (r_code r) (r_off r) (r_size r) (r_align r) = r.
+Lemma record_eta r : mkrec (r_code r) (r_off r) (r_size r) (r_align r) (r_mut r) = r.
 Proof. destruct r; reflexivity. Qed.
 
 Lemma mem_in x l : mem x l = true <-> In x l.
@@ -49,6 +49,53 @@ Proof.
   - rewrite IH. destruct (mem x l) eqn:E.
     + apply mem_in in E. simpl. split; [intros [H|H]; auto|intros [H|[<-|H]]; auto].
     + simpl. tauto.
+Qed.
+
+
+Lemma firstn_in {A} (x : A) j : forall l, In x (firstn j l) -> In x l.
+Proof. induction j as [|j IH]; intros [|y l]; simpl; auto; try tauto. intros [H|H]; auto. Qed.
+
+Lemma set_remove_in l xs c : In c (set_remove l xs) <-> In c l /\ ~ In c xs.
+Proof.
+  unfold set_remove. rewrite filter_In. split; intros (H1 & H2); split; auto.
+  - intros Hin. apply mem_in in Hin. rewrite Hin in H2. discriminate.
+  - destruct (mem c xs) eqn:E; [apply mem_in in E; contradiction|reflexivity].
+Qed.
+
+(* which offsets carry a "mutable" bit: those of the mutable columns *)
+Definition mut_at (rs : list crec) (o : Z) : bool := existsb (fun r => Z.eqb (r_off r) o && r_mut r) rs.
+
+Lemma set_mutables_get rs : forall b o, bytes_ok b -> (forall r, In r rs -> 0 <= r_off r) -> 0 <= o ->
+  GetBit (set_mutables b rs) o = GetBit b o || mut_at rs o.
+Proof.
+  induction rs as [|r rs IH]; intros b o Hb Hr Ho; cbn [set_mutables mut_at existsb].
+  - rewrite orb_false_r. reflexivity.
+  - assert (H0 : 0 <= r_off r) by (apply Hr; left; auto).
+    assert (Hr' : forall r0, In r0 rs -> 0 <= r_off r0) by (intros; apply Hr; right; auto).
+    fold (mut_at rs o). destruct (r_mut r).
+    + rewrite IH by (auto using SetBit_ok). rewrite GetBit_SetBit by auto. rewrite andb_true_r.
+      destruct (Z.eqb (r_off r) o), (GetBit b o), (mut_at rs o); reflexivity.
+    + rewrite IH by auto. rewrite andb_false_r. reflexivity.
+Qed.
+
+Lemma set_mutables_ok rs : forall b, bytes_ok b -> (forall r, In r rs -> 0 <= r_off r) -> bytes_ok (set_mutables b rs).
+Proof.
+  induction rs as [|r rs IH]; intros b Hb Hr; cbn [set_mutables]; auto.
+  apply IH; [|intros; apply Hr; right; auto]. destruct (r_mut r); auto. apply SetBit_ok; auto. apply Hr; left; auto.
+Qed.
+
+Lemma set_mutables_other rs : forall b i, (forall r, In r rs -> r_off r / 8 <> i) -> set_mutables b rs i = b i.
+Proof.
+  induction rs as [|r rs IH]; intros b i Hr; cbn [set_mutables]; auto.
+  rewrite IH by (intros; apply Hr; right; auto). destruct (r_mut r); auto.
+  unfold SetBit. apply upd_other. intros E. apply (Hr r (or_introl eq_refl)). auto.
+Qed.
+
+Lemma set_count_id old n b bound : bound <= old -> bound <= n -> (forall i, bound <= i -> b i = 0) ->
+  forall i, set_count old n b i = b i.
+Proof.
+  intros H1 H2 Hz i. unfold set_count.
+  destruct (Z.ltb_spec i n); destruct (Z.ltb_spec i old); simpl; auto; symmetry; apply Hz; lia.
 Qed.
 
 Section WithL.
@@ -164,7 +211,20 @@ Section WithL.
     inv_recs : Forall rec_ok (columns st);
     inv_aldiv : Forall (fun r => (r_align r | alignment st)) (columns st);
     inv_lookup : forall r, In r (columns st) -> get_offset L st (r_code r) = Some (r_off r);
-    inv_set : forall c, In c (codeSet st) <-> In c (map r_code (columns st)) }.
+    inv_set : forall c, In c (codeSet st) <-> In c (map r_code (columns st));
+    (* mMutableOffsets covers every offset below the total size -- except in the freshly constructed list, where the
+       array is empty although mTotalSize is 8 with keepRowNumber (see NOTES.md) *)
+    inv_mut_count : ((forall i, mutBytes st i = 0) /\ mutCount st = 0) \/ (totalSize st + 7) / 8 <= mutCount st;
+    inv_mut_zero : forall i, (totalSize st + 7) / 8 <= i -> mutBytes st i = 0;
+    inv_mut_bytes : bytes_ok (mutBytes st);
+    inv_mut_bits : forall o, 0 <= o -> is_mutable st o = mut_at (columns st) o }.
+
+  (* what a caller can observe is the same in st and st' (the code set as a set; mMutableOffsets may have grown) *)
+  Definition unchanged_obs (st st' : state) : Prop :=
+    codeParam st' = codeParam st /\ addends st' = addends st /\ totalSize st' = totalSize st /\
+    alignment st' = alignment st /\ columns st' = columns st /\
+    (forall c, In c (codeSet st') <-> In c (codeSet st)) /\
+    (forall o, is_mutable st' o = is_mutable st o).
 
   Lemma slot_range : 0 <= slot <= 8.
   Proof. unfold slot, rowNumberSize. destruct keep; lia. Qed.
@@ -173,7 +233,7 @@ Section WithL.
   Proof.
     pose proof slot_range. pose proof maxColumnCount_le.
     constructor; simpl; try lia; auto; try (unfold slot; lia); try (unfold pow2_le16; auto);
-      try (intros r []); try tauto.
+      try (intros r []); try tauto; try (left; split; reflexivity); try (intros i; lia).
   Qed.
 
   Definition group_ok (cs : list col) : Prop := Forall col_ok cs /\ Z.of_nat (length cs) < 2 ^ 32.
@@ -230,8 +290,137 @@ Section WithL.
         * right. split; [exact Es|]. intros c Hc. destruct (Z.eq_dec c cp) as [->|]; [eauto|apply Hf; lia].
   Qed.
 
-  (* ---------- one Add ---------- *)
-  Theorem add_spec st cs : Inv st -> group_ok cs ->
+  (* ---------- one Add, with an allocation failing at any place (or nowhere) ---------- *)
+  Lemma mut_at_app a b o : mut_at (a ++ b) o = mut_at a o || mut_at b o.
+  Proof. unfold mut_at. apply existsb_app. Qed.
+
+  Lemma div8_mono x y : x <= y -> (x + 7) / 8 <= (y + 7) / 8.
+  Proof. intros. apply Z.div_le_mono; lia. Qed.
+
+  Theorem add_f_spec fs st cs : Inv st -> group_ok cs ->
+    match add_f L fs st cs with
+    | Added st' =>
+        Inv st' /\
+        (exists rs, columns st' = columns st ++ rs /\ map r_code rs = map c_code cs /\
+                    map r_size rs = map c_size cs /\ map r_align rs = map c_align cs /\
+                    map r_mut rs = map c_mut cs /\ chain (totalSize st) rs (totalSize st')) /\
+        totalSize st <= totalSize st' /\ alignment st <= alignment st' /\ codeParam st <= codeParam st' /\
+        fs = NoFail
+    | TooMany => maxColumnCount L < Z.of_nat (length cs) + Z.of_nat (length (columns st))
+    | Refused => forall cp, codeParam st <= cp <= 255 ->
+                   exists a1 o1 l1 r1, try_param L st cp cs = Some (false, a1, o1, l1, r1)
+    | AllocFailed st' => Inv st' /\ unchanged_obs st st' /\ fs <> NoFail
+    | OutOfFuel => False
+    | AssertFails => False
+    end.
+  Proof.
+    intros I (Hcs & Hlen). pose proof maxColumnCount_le as Hm. pose proof slot_range as Hs.
+    unfold add_f.
+    assert (Hc0 : Z.of_nat (length (columns st)) <= 2 ^ 14) by (destruct I; lia).
+    rewrite wrapU_small by lia.
+    destruct (Z.gtb_spec (Z.of_nat (length cs) + Z.of_nat (length (columns st))) (maxColumnCount L)) as [Hgt|Hle]; [lia|].
+    destruct (search_spec st cs I Hcs Hle 257%nat (codeParam st) (inv_cp _ I) ltac:(destruct I; lia))
+      as [(cp' & a & off & al & rs & Es & Hr & Et & _)|(Es & Hf)]; rewrite Es; [|exact Hf].
+    destruct (try_param_spec st cp' cs I Hcs ltac:(pose proof (inv_cp _ I); lia) Hle) as (b & a' & off' & al' & rs' & Et' & El & Hok).
+    rewrite Et in Et'. injection Et' as <- <- <- <- <-.
+    specialize (Hok eq_refl).
+    assert (Iorig : Inv st) by exact I.
+    destruct I.
+    pose proof (chain_le _ _ _ inv_chain0) as Hts.
+    destruct (size_arith (Z.of_nat (length (columns st))) (Z.of_nat (length cs)) (totalSize st)) as (A1 & A2); try lia.
+    assert (Hts0 : 0 <= totalSize st) by (clear - Hs Hts; lia).
+    destruct (layout_spec _ _ _ _ _ _ Hcs Hts0 A1 inv_al0 El) as (Hch & Hb & Hal & Hpal & Hrecs & Hral & Hm1 & Hm2 & Hm3).
+    assert (Hm4 : map r_mut rs = map c_mut cs).
+    { clear - El. revert El. generalize (totalSize st) (alignment st) off al rs. clear.
+      induction cs as [|c cs IH]; intros t0 a0 o1 a1 rs E; simpl in E.
+      - injection E as <- <- <-. reflexivity.
+      - destruct (layout _ _ cs) as [[o2 a2] rs2] eqn:E2. injection E as <- <- <-. simpl. f_equal. eapply IH; eauto. }
+    assert (Hlenrs : length rs = length cs).
+    { rewrite <- (map_length r_code rs), Hm1, map_length. reflexivity. }
+    pose proof (chain_le _ _ _ Hch) as Hoff.
+    assert (Hoffb : off <= Bsz).
+    { clear - Hb A2 inv_bound0 Hs Hle Hm. unfold maxItemSize, Bsz in *. nia. }
+    assert (En : wrapU 64 (wrapU 64 (off + 7) / 8) = (off + 7) / 8).
+    { unfold Bsz in Hoffb. rewrite (wrapU_small 64 (off + 7)) by lia.
+      apply wrapU_small. split; [apply Z.div_pos; lia|]. apply Z.div_lt_upper_bound; lia. }
+    pose proof (div8_mono _ _ Hoff) as Hn8.
+    assert (Hmb : forall i, set_count (mutCount st) ((off + 7) / 8) (mutBytes st) i = mutBytes st i).
+    { destruct inv_mut_count0 as [(Hz & _)|Hc].
+      - intros i. unfold set_count. rewrite Hz. destruct (_ && _); reflexivity.
+      - apply set_count_id with (bound := (totalSize st + 7) / 8); auto. }
+    assert (Hfresh : forall c, In c (map c_code cs) -> ~ In c (codeSet st)).
+    { intros c Hc Hin. rewrite <- Hm1 in Hc. apply in_map_iff in Hc. destruct Hc as (r2 & E2 & Hr2).
+      apply inv_set0 in Hin. apply in_map_iff in Hin. destruct Hin as (r1 & E1 & Hr1).
+      pose proof (Hok r1 (in_or_app _ _ _ (or_introl Hr1))) as L1.
+      pose proof (Hok r2 (in_or_app _ _ _ (or_intror Hr2))) as L2.
+      rewrite E1 in L1. rewrite E2, L1 in L2. injection L2 as E.
+      destruct (chain_in _ _ _ _ inv_chain0 Hr1) as (_ & Q2 & _ & Q4).
+      destruct (chain_in _ _ _ _ Hch Hr2) as (Q5 & _).
+      clear - E Q2 Q4 Q5. lia. }
+    destruct fs as [| | |j].
+    - (* no failure: commit *)
+      rewrite add_columns_id by (intros r Hr'; apply Hok; apply in_or_app; right; auto).
+      rewrite En.
+      assert (Hrs0 : forall r, In r rs -> 0 <= r_off r).
+      { intros r Hr'. destruct (chain_in _ _ _ _ Hch Hr') as (Q & _). clear - Q Hts0. lia. }
+      assert (Hbok : bytes_ok (set_count (mutCount st) ((off + 7) / 8) (mutBytes st))).
+      { intros i. rewrite Hmb. apply inv_mut_bytes0. }
+      split; [|split; [|split; [|split; [|split]]]].
+      + constructor; cbn [codeParam addends totalSize alignment codeSet columns mutCount mutBytes].
+        * lia.
+        * eapply chain_app; eauto.
+        * rewrite app_length, Nat2Z.inj_add, Hlenrs. lia.
+        * rewrite app_length, Nat2Z.inj_add, Hlenrs. lia.
+        * exact Hpal.
+        * apply Forall_app; auto.
+        * apply Forall_app. split.
+          -- rewrite Forall_forall in *. intros r Hr'. apply pow2_le16_divide; auto.
+             ++ destruct (inv_recs0 r Hr') as (_ & _ & Hp & _). exact Hp.
+             ++ pose proof (inv_aldiv0 r Hr') as Hd. apply Z.divide_pos_le in Hd; [lia|].
+                apply pow2_le16_range in inv_al0. lia.
+          -- rewrite Forall_forall in *. intros r Hr'. apply pow2_le16_divide; auto.
+             destruct (Hrecs r Hr') as (_ & _ & Hp & _). exact Hp.
+        * intros r Hr'. unfold get_offset; cbn [codeParam addends]. apply Hok; auto.
+        * intros c. rewrite set_insert_in, map_app, in_app_iff, inv_set0, Hm1. tauto.
+        * right. lia.
+        * intros i Hi. rewrite set_mutables_other.
+          -- rewrite Hmb. apply inv_mut_zero0. lia.
+          -- intros r Hr' E. destruct (chain_in _ _ _ _ Hch Hr') as (Q1 & Q2 & _ & Q4).
+             assert (r_off r / 8 < (off + 7) / 8).
+             { apply Z.div_lt_upper_bound; [lia|]. pose proof (Z.div_mod (off + 7) 8 ltac:(lia)).
+               pose proof (Z.mod_pos_bound (off + 7) 8 ltac:(lia)). lia. }
+             lia.
+        * apply set_mutables_ok; auto.
+        * intros o Ho. unfold is_mutable; cbn [mutBytes]. rewrite set_mutables_get by auto.
+          rewrite mut_at_app. f_equal.
+          transitivity (GetBit (mutBytes st) o); [|apply (inv_mut_bits0 o Ho)].
+          unfold GetBit. rewrite Hmb. reflexivity.
+      + exists rs. cbn [columns totalSize]. auto 10.
+      + cbn [totalSize]. lia.
+      + cbn [alignment]. lia.
+      + cbn [codeParam]. lia.
+      + reflexivity.
+    - split; [exact Iorig|]. split; [|discriminate]. unfold unchanged_obs. repeat split; auto; tauto.
+    - split; [exact Iorig|]. split; [|discriminate]. unfold unchanged_obs. repeat split; auto; tauto.
+    - (* Insert threw after j keys; the catch block removed every new key *)
+      rewrite En.
+      assert (Hset : forall c, In c (set_remove (set_insert (codeSet st) (firstn j (map c_code cs))) (map c_code cs)) <-> In c (codeSet st)).
+      { intros c. rewrite set_remove_in, set_insert_in. split.
+        - intros ([H|H] & Hn); [auto|]. exfalso. apply Hn. eapply firstn_in; eauto.
+        - intros H. split; [auto|]. intros Hc. exact (Hfresh c Hc H). }
+      split; [|split; [|discriminate]].
+      + constructor; cbn [codeParam addends totalSize alignment codeSet columns mutCount mutBytes]; auto;
+          try (intros c; rewrite Hset; apply inv_set0);
+          try (right; exact Hn8);
+          try (intros i Hi; rewrite Hmb; auto);
+          try (intros i; rewrite Hmb; apply inv_mut_bytes0);
+          try (intros o Ho; rewrite <- (inv_mut_bits0 o Ho); unfold is_mutable, GetBit; cbn [mutBytes]; rewrite Hmb; reflexivity).
+      + unfold unchanged_obs; cbn [codeParam addends totalSize alignment codeSet columns mutCount mutBytes].
+        repeat split; auto; try apply Hset.
+        intros o. unfold is_mutable, GetBit; cbn [mutBytes]. rewrite Hmb. reflexivity.
+  Qed.
+
+  Corollary add_spec st cs : Inv st -> group_ok cs ->
     match add L st cs with
     | Added st' =>
         Inv st' /\
@@ -242,62 +431,51 @@ Section WithL.
     | TooMany => maxColumnCount L < Z.of_nat (length cs) + Z.of_nat (length (columns st))
     | Refused => forall cp, codeParam st <= cp <= 255 ->
                    exists a1 o1 l1 r1, try_param L st cp cs = Some (false, a1, o1, l1, r1)
+    | AllocFailed _ => False
     | OutOfFuel => False
     | AssertFails => False
     end.
   Proof.
-    intros I (Hcs & Hlen). pose proof maxColumnCount_le as Hm. pose proof slot_range as Hs.
-    unfold add.
-    assert (Hc0 : Z.of_nat (length (columns st)) <= 2 ^ 14) by (destruct I; lia).
-    rewrite wrapU_small by lia.
-    destruct (Z.gtb_spec (Z.of_nat (length cs) + Z.of_nat (length (columns st))) (maxColumnCount L)) as [Hgt|Hle]; [lia|].
-    destruct (search_spec st cs I Hcs Hle 257%nat (codeParam st) (inv_cp _ I) ltac:(destruct I; lia))
-      as [(cp' & a & off & al & rs & Es & Hr & Et & _)|(Es & Hf)]; rewrite Es; [|exact Hf].
-    destruct (try_param_spec st cp' cs I Hcs ltac:(pose proof (inv_cp _ I); lia) Hle) as (b & a' & off' & al' & rs' & Et' & El & Hok).
-    rewrite Et in Et'. injection Et' as <- <- <- <- <-.
-    specialize (Hok eq_refl).
-    rewrite add_columns_id by (intros r Hr'; apply Hok; apply in_or_app; right; auto).
-    destruct I.
-    pose proof (chain_le _ _ _ inv_chain0) as Hts.
-    destruct (size_arith (Z.of_nat (length (columns st))) (Z.of_nat (length cs)) (totalSize st)) as (A1 & A2); try lia.
-    assert (Hts0 : 0 <= totalSize st) by (clear - Hs Hts; lia).
-    destruct (layout_spec _ _ _ _ _ _ Hcs Hts0 A1 inv_al0 El) as (Hch & Hb & Hal & Hpal & Hrecs & Hral & Hm1 & Hm2 & Hm3).
-    assert (Hlenrs : length rs = length cs).
-    { rewrite <- (map_length r_code rs), Hm1, map_length. reflexivity. }
-    split; [|split; [|split; [|split]]].
-    - constructor; cbn [codeParam addends totalSize alignment codeSet columns].
-      + lia.
-      + eapply chain_app; eauto.
-      + rewrite app_length, Nat2Z.inj_add, Hlenrs. lia.
-      + rewrite app_length, Nat2Z.inj_add, Hlenrs. lia.
-      + exact Hpal.
-      + apply Forall_app; auto.
-      + apply Forall_app. split.
-        * rewrite Forall_forall in *. intros r Hr'. apply pow2_le16_divide; auto.
-          -- destruct (inv_recs0 r Hr') as (_ & _ & Hp & _). exact Hp.
-          -- pose proof (inv_aldiv0 r Hr') as Hd. apply Z.divide_pos_le in Hd; [lia|].
-             apply pow2_le16_range in inv_al0. lia.
-        * rewrite Forall_forall in *. intros r Hr'. apply pow2_le16_divide; auto.
-          destruct (Hrecs r Hr') as (_ & _ & Hp & _). exact Hp.
-      + intros r Hr'. unfold get_offset; cbn [codeParam addends]. apply Hok; auto.
-      + intros c. rewrite set_insert_in, map_app, in_app_iff, inv_set0, Hm1. tauto.
-    - exists rs. cbn [columns totalSize]. auto.
-    - cbn [totalSize]. apply chain_le in Hch. lia.
-    - cbn [alignment]. lia.
-    - cbn [codeParam]. lia.
+    intros I Hcs. pose proof (add_f_spec NoFail st cs I Hcs) as H. unfold add.
+    destruct (add_f L NoFail st cs); auto.
+    - destruct H as (H1 & (rs & E1 & E2 & E3 & E4 & _ & E6) & H3 & H4 & H5 & _).
+      split; [exact H1|]. split; [exists rs; auto|]. auto.
+    - destruct H as (_ & _ & H). congruence.
   Qed.
 
   (* a refused addition leaves the list as it was; an accepted one is the only way the state changes *)
-  Lemma refused_unchanged st cs : (forall st', add L st cs <> Added st') -> after st (add L st cs) = st.
-  Proof. intros H. destruct (add L st cs); try reflexivity. exfalso. eapply H; eauto. Qed.
+  Lemma refused_unchanged st cs : (forall st', add L st cs <> Added st') -> (forall st', add L st cs <> AllocFailed st') ->
+    after st (add L st cs) = st.
+  Proof. intros H H'. destruct (add L st cs); try reflexivity; exfalso; [eapply H|eapply H']; eauto. Qed.
 
-  Lemma after_inv st cs : Inv st -> group_ok cs -> Inv (after st (add L st cs)).
+  (* whatever is not `Added` -- Too many, Cannot add, or an allocation failure anywhere -- leaves every observable as it was *)
+  Theorem not_added_unchanged fs st cs : Inv st -> group_ok cs -> (forall st', add_f L fs st cs <> Added st') ->
+    unchanged_obs st (after st (add_f L fs st cs)).
   Proof.
-    intros I Hcs. pose proof (add_spec st cs I Hcs) as H.
-    destruct (add L st cs); simpl; auto. tauto.
+    intros I Hcs H. pose proof (add_f_spec fs st cs I Hcs) as Hs.
+    destruct (add_f L fs st cs) as [st'| | |st'| |]; cbn [after];
+      try (unfold unchanged_obs; repeat split; auto; tauto).
+    - exfalso. eapply H; eauto.
+    - tauto.
   Qed.
 
-  (* every reachable state satisfies the invariant *)
+  Lemma after_f_inv fs st cs : Inv st -> group_ok cs -> Inv (after st (add_f L fs st cs)).
+  Proof.
+    intros I Hcs. pose proof (add_f_spec fs st cs I Hcs) as H.
+    destruct (add_f L fs st cs); simpl; auto; tauto.
+  Qed.
+
+  Lemma after_inv st cs : Inv st -> group_ok cs -> Inv (after st (add L st cs)).
+  Proof. apply after_f_inv. Qed.
+
+  (* every reachable state satisfies the invariant, whatever allocations failed on the way *)
+  Theorem run_f_inv ops : Forall (fun op => group_ok (snd op)) ops -> Inv (run_f L keep ops).
+  Proof.
+    unfold run_f. generalize (init keep) inv_init.
+    induction ops as [|op ops IH]; intros st I Hops; simpl; [exact I|].
+    inversion Hops; subst. apply IH; auto. apply after_f_inv; auto.
+  Qed.
+
   Theorem run_inv ops : Forall group_ok ops -> Inv (run L keep ops).
   Proof.
     unfold run. generalize (init keep) inv_init.
@@ -310,7 +488,7 @@ Section WithL.
     exists rs, columns (after st (add L st cs)) = columns st ++ rs.
   Proof.
     intros I Hcs. pose proof (add_spec st cs I Hcs) as H.
-    destruct (add L st cs); simpl; try (exists []; rewrite app_nil_r; reflexivity).
+    destruct (add L st cs); simpl; try (exists []; rewrite app_nil_r; reflexivity); try contradiction.
     destruct H as (_ & (rs & E & _) & _). eauto.
   Qed.
 
@@ -361,5 +539,96 @@ Section WithL.
     - intros Hn. destruct (contains L st code) as [off|] eqn:E; [|reflexivity].
       apply contains_iff in E; auto. destruct E as (r & Hr & Ec & _).
       exfalso. apply Hn. apply in_map_iff. eauto.
+  Qed.
+
+  (* ---------- Graph::mEdgeStorage never overflows ---------- *)
+  (* number of Edge records reachable from the heads mEdges[v]: every pvAddEdge call takes the next slot of
+     mEdgeStorage (index mEdgeNumber) and links it into one list, so this is mEdgeNumber *)
+  Definition gsize (g : graph) (vs : list Z) : Z := fold_right (fun v n => Z.of_nat (length (g v)) + n) 0 vs.
+  Definition maxEdgeCount : Z := 2 * maxColumnCount L.
+
+  Lemma gsize_add_edge_out g v1 v2 val vs : ~ In v1 vs -> gsize (add_edge g v1 v2 val) vs = gsize g vs.
+  Proof.
+    induction vs as [|v vs IH]; intros Hn; cbn [gsize fold_right]; [reflexivity|]. fold (gsize (add_edge g v1 v2 val) vs). fold (gsize g vs).
+    rewrite IH by (intros H; apply Hn; right; auto). unfold add_edge at 1.
+    destruct (Z.eqb_spec v v1) as [->|]; [exfalso; apply Hn; left; auto|reflexivity].
+  Qed.
+
+  Lemma gsize_add_edge g v1 v2 val vs : NoDup vs -> In v1 vs -> gsize (add_edge g v1 v2 val) vs = gsize g vs + 1.
+  Proof.
+    induction vs as [|v vs IH]; intros Hnd Hin; [contradiction|]. inversion Hnd as [|? ? Hnot Hnd']; subst.
+    cbn [gsize fold_right]. fold (gsize (add_edge g v1 v2 val) vs). fold (gsize g vs).
+    destruct (Z.eq_dec v v1) as [->|Hne].
+    - rewrite gsize_add_edge_out by auto. unfold add_edge at 1. rewrite Z.eqb_refl. cbn [length]. lia.
+    - destruct Hin as [E|Hin]; [contradiction|]. rewrite IH by auto. unfold add_edge at 1.
+      destruct (Z.eqb_spec v v1); [contradiction|]. lia.
+  Qed.
+
+  Lemma NoDup_zrange n : forall s, NoDup (zrange n s).
+  Proof.
+    induction n as [|n IH]; intros s; cbn [zrange]; constructor; auto.
+    rewrite in_zrange. lia.
+  Qed.
+
+  Lemma gsize_old_edges cp rs : 0 <= cp <= 255 -> forall g,
+    gsize (old_edges L cp g rs) (vertices L) = gsize g (vertices L) + 2 * Z.of_nat (length rs).
+  Proof.
+    intros Hcp. induction rs as [|r rs IH]; intros g; cbn [old_edges length]; [lia|].
+    destruct (vertices_in_range (r_code r) cp Hcp) as (I1 & I2).
+    destruct (GetVertices L (r_code r) cp) as [v1 v2]. cbn [fst snd] in *.
+    rewrite IH. unfold add_edges. pose proof (NoDup_zrange (Z.to_nat (vertexCount L)) 0) as Hnd. fold (vertices L) in Hnd.
+    rewrite !gsize_add_edge by auto. lia.
+  Qed.
+
+  (* under the "Too many columns" guard of pvAdd, for every code parameter tried, the graph handed to FillAddends
+     holds exactly 2 * (old + new column count) edges: at most maxEdgeCount = 2 * maxColumnCount = the size of
+     mEdgeStorage (and = vertexCount <= 2 * vertexCount, the bound of the MOMO_ASSERT in pvAddEdge) *)
+  Theorem edge_storage_bound st cs cp : 0 <= cp <= 255 ->
+    Z.of_nat (length cs) + Z.of_nat (length (columns st)) <= maxColumnCount L ->
+    let '(g1, _, _, _) := new_edges L cp (old_edges L cp g_empty (columns st)) (totalSize st) (alignment st) cs in
+    gsize g1 (vertices L) = 2 * (Z.of_nat (length (columns st)) + Z.of_nat (length cs)) /\
+    gsize g1 (vertices L) <= maxEdgeCount /\ maxEdgeCount = vertexCount L.
+  Proof.
+    intros Hcp Hguard. rewrite new_edges_layout.
+    destruct (layout (totalSize st) (alignment st) cs) as [[off al] rs] eqn:El.
+    assert (Hlen : length rs = length cs).
+    { clear - El. revert El. generalize (totalSize st) (alignment st) off al rs. clear.
+      induction cs as [|c cs IH]; intros t0 a0 o1 a1 rs E; simpl in E.
+      - injection E as <- <- <-. reflexivity.
+      - destruct (layout _ _ cs) as [[o2 a2] rs2] eqn:E2. injection E as <- <- <-. simpl. f_equal. eapply IH; eauto. }
+    rewrite !gsize_old_edges by auto. rewrite Hlen.
+    assert (G0 : gsize g_empty (vertices L) = 0).
+    { unfold gsize. induction (vertices L); simpl; auto. }
+    rewrite G0. unfold maxEdgeCount. split; [lia|]. split; [lia|].
+    unfold maxColumnCount, vertexCount. rewrite !Z.shiftl_1_l.
+    replace L with (L - 1 + 1) at 2 by lia. rewrite Z.pow_add_r by lia. lia.
+  Qed.
+
+  (* IsMutable(offset of a column) = the column was added as mutable; no other offset is marked *)
+  Lemma mut_at_column st r : Inv st -> In r (columns st) -> mut_at (columns st) (r_off r) = r_mut r.
+  Proof.
+    intros I Hr. pose proof (inv_chain _ I) as Hc. revert Hc Hr. generalize slot (totalSize st).
+    unfold mut_at. induction (columns st) as [|x l IH]; intros lo hi Hc Hr; [contradiction|].
+    cbn [existsb]. simpl in Hc. destruct Hc as (H1 & H2 & H3 & H4). destruct Hr as [->|Hr].
+    - rewrite Z.eqb_refl. simpl. destruct (r_mut r); [reflexivity|]. simpl.
+      apply not_true_is_false. intros E. apply existsb_exists in E. destruct E as (y & Hy & Ey).
+      apply andb_true_iff in Ey. destruct Ey as (Ey & _). apply Z.eqb_eq in Ey.
+      destruct (chain_in _ _ _ _ H4 Hy) as (Q & _). clear - Q Ey H3. lia.
+    - destruct (chain_in _ _ _ _ H4 Hr) as (Q & _).
+      destruct (Z.eqb_spec (r_off x) (r_off r)) as [E|E]; [clear - Q E H3; lia|]. simpl. eapply IH; eauto.
+  Qed.
+
+  Theorem is_mutable_column st r : Inv st -> In r (columns st) -> is_mutable st (r_off r) = r_mut r.
+  Proof.
+    intros I Hr. rewrite (inv_mut_bits _ I).
+    - apply mut_at_column; auto.
+    - destruct (chain_in _ _ _ _ (inv_chain _ I) Hr) as (Q & _). pose proof slot_range. lia.
+  Qed.
+
+  Theorem is_mutable_only_columns st o : Inv st -> 0 <= o -> is_mutable st o = true ->
+    exists r, In r (columns st) /\ r_off r = o /\ r_mut r = true.
+  Proof.
+    intros I Ho H. rewrite (inv_mut_bits _ I) in H by auto. apply existsb_exists in H.
+    destruct H as (r & Hr & E). apply andb_true_iff in E. destruct E as (E1 & E2). apply Z.eqb_eq in E1. eauto.
   Qed.
 End WithL.
